@@ -97,9 +97,16 @@ func init() {
 						}
 					}
 					if id, ok := sel.X.(*ast.Ident); ok && id.Name == "os" && fsFuncs[sel.Sel.Name] && len(ce.Args) > 0 {
-						arg := (&tctx{p: p}).src(ce.Args[0])
-						if arg == "db.path" || arg == "db.Path()" || (len(ce.Args) > 1 && ((&tctx{p: p}).src(ce.Args[1]) == "db.path")) {
-							opens = append(opens, fd.Name.Name+": os."+sel.Sel.Name)
+						isDBPath := func(a string) bool {
+							a = strings.Join(strings.Fields(a), "")
+							return a == "db.path" || a == "db.Path()" || strings.Contains(a, "WALPath()") || strings.Contains(a, "SHMPath()") ||
+								strings.Contains(a, "db.path+") || strings.Contains(a, "db.Path()+")
+						}
+						for _, a := range ce.Args {
+							if isDBPath((&tctx{p: p}).src(a)) {
+								opens = append(opens, fd.Name.Name+": os."+sel.Sel.Name)
+								break
+							}
 						}
 					}
 					return true
@@ -131,7 +138,7 @@ func init() {
 			}
 			sb.WriteString(strconv.Quote(s))
 		}
-		sb.WriteString("]\n\n/-- every os.* call whose path argument is the database path -/\ndef dbPathCalls : List String := [")
+		sb.WriteString("]\n\n/-- every file-modifying or file-opening os.* call (Open, OpenFile, Create, WriteFile, Truncate, Remove, RemoveAll, Rename, Chtimes, Chmod) with the database path, its -wal or its -shm among the arguments -/\ndef dbPathCalls : List String := [")
 		for i, s := range opens {
 			if i > 0 {
 				sb.WriteString(", ")
